@@ -45,7 +45,7 @@ def run(ctx):
     for f in ('P_C14_en', 'P_C14_ja'):
         if os.path.exists(os.path.join(env.COQ, f + '.v')):
             targets.append(f + '.vo')
-    ctx.build(targets, gens=('tables', 'grammar'))
+    ctx.build(targets, gens=('tables', 'grammar', 'jaroots'))
     for f in ('P_C14_en', 'P_C14_ja'):
         if os.path.exists(os.path.join(env.COQ, f + '.v')):
             ctx.theorems(f)
